@@ -478,9 +478,36 @@ def run_engine_b(pid, tier, harnesses, ev, work, known_match=None, custom_replay
     ctx = mp.get_context('fork')
     global _B_HS
     _B_HS = hs
-    with ctx.Pool(workers) as pool:
-        outs = pool.map(_b_worker, [(ll, k, None, h.split > 1) for k, (ll, h) in enumerate(zip(lls, hs))], chunksize=1)
-        # second phase: harnesses whose seeding phase left unexplored prefixes are fanned out over the pool
+    def run_tasks(tasks):
+        """own scheduler: one forked process per task, at most `workers` alive, each with a HARD wall-clock limit
+        (z3 can ignore its own timeouts inside preprocessing); a killed task yields an error record, never a hang"""
+        results = [None] * len(tasks); pending = list(range(len(tasks))); running = {}
+        def child(conn, args):
+            try: conn.send(_b_worker(args))
+            except Exception as e: conn.send({'error': 'worker crashed: %r' % (e,)})
+            conn.close()
+        while pending or running:
+            while pending and len(running) < workers:
+                k = pending.pop(0); pc, cc = ctx.Pipe(duplex=False)
+                p = ctx.Process(target=child, args=(cc, tasks[k])); p.start(); cc.close()
+                running[k] = (p, pc, time.time() + _B_HS[tasks[k][1]].timeout + 120)
+            done = []
+            for k, (p, pc, dl) in running.items():
+                if pc.poll(0.05):
+                    try: results[k] = pc.recv()
+                    except EOFError: results[k] = {'error': 'worker died'}
+                    p.join(5); done.append(k)
+                elif not p.is_alive(): results[k] = {'error': 'worker died (exit code %s)' % p.exitcode}; done.append(k)
+                elif time.time() > dl:
+                    p.kill(); p.join(5); results[k] = {'error': 'hard time limit of %ds exceeded (harness killed)' % (_B_HS[tasks[k][1]].timeout + 120)}; done.append(k)
+            for k in done: running.pop(k)
+        return results
+    EMPTY = {'paths': 0, 'obl': 0, 'discharged': 0, 'unknown': 0, 'candidates': [], 'aborted': 0, 'loopbound': 0, 'queries': 0, 'solver_s': 0.0, 'samples': [], 'ties_excluded': 0,
+             'side_conditions': {}, 'functions': [], 'errors_reached': 0, 'tiny_sites': 0, 'exact_obl': 0, 'infeasible': 0, 'remaining': [], 'wall': 0}
+    def norm(o): d = dict(EMPTY); d.update(o); d.setdefault('error', None); return d
+    if True:
+        outs = [norm(o) for o in run_tasks([(ll, k, None, h.split > 1) for k, (ll, h) in enumerate(zip(lls, hs))])]
+        # second phase: harnesses whose seeding phase left unexplored prefixes are fanned out
         tasks = []
         for k, (h, o) in enumerate(zip(hs, outs)):
             rem = o.get('remaining') or []
@@ -489,7 +516,7 @@ def run_engine_b(pid, tier, harnesses, ev, work, known_match=None, custom_replay
                     chunk = rem[j::h.split * 6]
                     if chunk: tasks.append((k, (lls[k], k, chunk, False)))
         if tasks:
-            res2 = pool.map(_b_worker, [t for _, t in tasks], chunksize=1)
+            res2 = [norm(o) for o in run_tasks([t for _, t in tasks])]
             for (k, _), o2 in zip(tasks, res2):
                 o = outs[k]
                 for key in ('paths', 'obl', 'discharged', 'unknown', 'aborted', 'loopbound', 'queries', 'solver_s', 'ties_excluded', 'errors_reached', 'tiny_sites', 'infeasible'):
